@@ -548,7 +548,7 @@ def _recursive_update_poly(
         _phi_H_a_update_poly(q_ext, 0.5 * timestep, jac_H, clmo_H)
     else:
         # Ensure float division for the exponent if order is large
-        gamma = 1.0 / (2.0 - 2.0**(1.0 / (float(order) - 1.0)))
+        gamma = 1.0 / (2.0 - 2.0**(1.0 / (float(order) + 1.0)))
         lower_order = order - 2
         if lower_order < 2: # Ensure lower_order doesn't go below 2
             # This case should not be hit if initial order is >= 2 and even.
